@@ -84,17 +84,20 @@ def save_text(v):
 class C16(Prop):
     id = "C16"
     title = "saved values restore to equal values; saves are atomic; restore is robust"
-    lean_modules = ["NV.C16.Props", "NV.C16.Witness"]
+    lean_modules = ["NV.C16.Props", "NV.C16.Witness", "NV.C16.SpecTests"]
     theorems = ["NV.C16.Props." + t for t in (
         "size_bounds_output", "saveVariable_no_crash", "saveObject_no_crash", "restore_total", "restoreObject_total",
         "roundtrip", "safe_restore_keeps_old_on_error", "restoreObject_error_keeps_variable", "save_atomic",
         "save_complete", "save_atomic_failure", "statics_and_objects_not_persisted",
         "saveObject_writes_each_nonstatic_variable_its_own_value", "saveLines_spec", "saveLines_sub", "findGlobal_flat",
-        "cns_flat", "restoreObjectT_flat", "object_roundtrip")]
+        "cns_flat", "restoreObjectT_flat", "object_roundtrip", "object_roundtrip_noclear", "size_overheads_suffice",
+        "saveEscaped_sub_sizeEscaped", "restore_swap_inverts_save", "restore_swap_sites_agree",
+        "save_escapes_quote_backslash_cr", "tmpName_ne_file", "save_failure_leaves_no_tmp", "save_success_leaves_no_tmp")]
     witness_theorems = ["NV.C16.Witness." + t for t in (
         "float_keys_collapse", "roundtripFloatKeys_Full_false", "cr_round_trips", "stray_byte_in_array_ok",
         "inf_is_written_as_number", "same_name_saved", "same_name_variables")]
-    consts = [("maxSaveSvalueDepth", "MAX_SAVE_SVALUE_DEPTH"), ("nameStatic", "NAME_STATIC")]
+    consts = [("maxSaveSvalueDepth", "MAX_SAVE_SVALUE_DEPTH"), ("nameStatic", "NAME_STATIC"),
+              ("saveExtLen", "sizeof(SAVE_EXTENSION) - 1"), ("saveExt0", "SAVE_EXTENSION[0]"), ("saveExt1", "SAVE_EXTENSION[1]")]
     const_headers = ["lib/efuns/options.h", "lib/lpc/program.h"]
     quick_n = 1200
     thorough_n = 20000
@@ -118,7 +121,12 @@ class C16(Prop):
             "nesting 24..26, hand-made damaged texts, object files, crash points) + seeded random cases of five kinds: "
             "round trips of random nested values; valid save texts mutated 1-3 times (truncate / replace / delete / "
             "insert / duplicate / swap, biased to the format's special bytes); every prefix of a valid text; "
-            "save_object / restore_object incl. damaged files; crash-point and failure enumeration of save_object. "
+            "save_object / restore_object (both noclear flags) incl. damaged files; crash-point and failure enumeration of "
+            "save_object; generated inheritance trees (static / plain / private / public inherits, depth <= 3, shadowed names) "
+            "on the REAL dumped program trees; 24-variable objects; save files of another program version; file names incl. "
+            "0/1-character names and paths of 200..300 bytes (temporary-file name). Quantifier coverage measured per run "
+            "(histogram: error kinds, restored types, class values, nesting >= 25, CR strings, non-finite floats, noclear "
+            "restores, static inherits). "
             "non-trivial = trace has >= 2 lines; distinct = distinct canonical implementation trace")
     not_covered = ["mapping size limit (\"Mapping too large\") and out-of-memory paths of the restore are not modelled",
                    "C stack exhaustion by deeply nested text (recursion depth = nesting depth) is not modelled",
@@ -170,6 +178,55 @@ class C16(Prop):
             raise X.TieBroken("site:save_svalue/swap", "LF/CR substitution of save_svalue not recognised")
         tr = {"\\n": 10, "\\r": 13}
         swap_from, swap_to = tr.get(m.group(1), ord(m.group(1)[-1])), tr.get(m.group(2), ord(m.group(2)[-1]))
+        # additive constants of svalue_save_size, per case of its switch
+        whole = section("size_t svalue_save_size", "void save_svalue", "svalue_save_size")
+
+        def case_body(label, nxt):
+            i = whole.find(label)
+            j = whole.find(nxt, i + 1) if i >= 0 else -1
+            if i < 0 or j < 0:
+                raise X.TieBroken("site:svalue_save_size/" + label, "case not found")
+            return whole[i:j]
+
+        def const(body, pat, site):
+            mm = re.search(pat, body)
+            if not mm:
+                raise X.TieBroken("site:svalue_save_size/" + site, "return statement not recognised")
+            return int(mm.group(1))
+        sizes = {
+            "sizeStr": const(case_body("case T_STRING", "case T_ARRAY"), r"return\s+(\d+)\s*\+\s*size\s*;", "T_STRING"),
+            "sizeArr": const(case_body("case T_ARRAY", "case T_CLASS"), r"return\s+size\s*\+\s*(\d+)\s*;", "T_ARRAY"),
+            "sizeCls": const(case_body("case T_CLASS", "case T_MAPPING"), r"return\s+size\s*\+\s*(\d+)\s*;", "T_CLASS"),
+            "sizeMap": const(case_body("case T_MAPPING", "case T_NUMBER"), r"return\s+size\s*\+\s*(\d+)\s*;", "T_MAPPING"),
+            "sizeInt": const(case_body("case T_NUMBER", "case T_REAL"), r"return\s+len\s*\+\s*(\d+)\s*;", "T_NUMBER"),
+            "sizeReal": const(case_body("case T_REAL", "default:"), r"return\s+save_real_text\s*\([^)]*\)\s*\+\s*(\d+)\s*;", "T_REAL"),
+            "sizeOther": const(whole[whole.find("default:"):], r"return\s+(\d+)\s*;", "default"),
+        }
+        # restore side of the LF/CR substitution: six sites in three functions
+        mapc = open(os.path.join(E.REPO, "lib/lpc/mapping.c")).read()
+        bodies = [section("int restore_string (char *val", "int restore_svalue", "restore_string"),
+                  section("static int restore_interior_string", "#define MAX_SAVE_EXPONENT", "restore_interior_string")]
+        i = mapc.find("int restore_hash_string (char **val")
+        j = mapc.find("svalue_to_int", i)
+        if i < 0 or j < 0:
+            raise X.TieBroken("site:restore_hash_string", "cannot locate restore_hash_string in lib/lpc/mapping.c")
+        bodies.append(mapc[i:j])
+        lit = {"\\r": 13, "\\n": 10}
+        sites = []
+        for b in bodies:
+            a1 = re.findall(r"case\s+'(\\.)':\s*\{?\s*\*\(cp - 1\)\s*=\s*'(\\.)';", b)
+            a2 = re.findall(r"if\s*\(c == '(\\.)'\)\s*(?:c\s*=\s*)?\*newp\+\+\s*=\s*'(\\.)';", b)
+            if len(a1) != 1 or len(a2) != 1:
+                raise X.TieBroken("site:restore/swap", "CR/LF substitution sites of the restore functions not recognised")
+            sites += [(lit.get(x, -1), lit.get(y, -1)) for x, y in a1 + a2]
+        agree = all(t == sites[0] for t in sites)
+        mv = re.search(r"char\s+var\[(\d+)\];", section("void restore_object_from_buff", "static int save_object_recurse",
+                                                        "restore_object_from_buff"))
+        so = section("int save_object (object_t", "char* save_variable", "save_object")
+        mt = re.search(r'static char tmp_name\[(\d+)\];', so)
+        mf = re.search(r'snprintf \(tmp_name, sizeof\(tmp_name\), "%\.(\d+)s\.tmp", file\);', so)
+        if not mv or not mt or not mf:
+            raise X.TieBroken("site:buffers", "var[] / tmp_name[] / the .tmp format not recognised")
         rc = open(os.path.join(E.REPO, "lib/rc/rc.cpp")).read()
         m2 = re.search(r'"MaxArraySize",\s*\d+,\s*(\d+)\)', rc)
         if not m2:
@@ -182,7 +239,15 @@ class C16(Prop):
             "def saveEscaped : List Nat := %s" % save_esc,
             "/-- bytes svalue_save_size() counts twice (its `if (c == ...)` in the T_STRING case) -/\n"
             "def sizeEscaped : List Nat := %s" % size_esc,
-            "/-- save_svalue(): `(c == '\\n') ? '\\r' : c` -/\ndef swapFrom : Nat := %d\ndef swapTo : Nat := %d" % (swap_from, swap_to)])
+            "/-- save_svalue(): `(c == '\\n') ? '\\r' : c` -/\ndef swapFrom : Nat := %d\ndef swapTo : Nat := %d" % (swap_from, swap_to),
+            "/-- additive constants in the return statements of svalue_save_size() -/\n" +
+            "\n".join("def %s : Nat := %d" % kv for kv in sizes.items()),
+            "/-- restore_string / restore_interior_string / restore_hash_string: an unescaped `from` becomes `to`\n"
+            "    (six sites: %s) -/\ndef restoreSwapFrom : Nat := %d\ndef restoreSwapTo : Nat := %d\n"
+            "def restoreSwapSitesAgree : Bool := %s" % (sites, sites[0][0], sites[0][1], "true" if agree else "false"),
+            "/-- restore_object_from_buff(): `char var[N]` -/\ndef varBufSize : Nat := %s" % mv.group(1),
+            "/-- save_object(): `static char tmp_name[N]` and the `%%.Ns.tmp` format -/\n"
+            "def tmpPrefixMax : Nat := %s\ndef tmpBufSize : Nat := %s" % (mf.group(1), mt.group(1))])
 
     def prepare(self, ctx):
         self.exe = E.compile_harness("c16", [os.path.join(E.VERIF, "harness/c16/c16.c")], extra=["-ldl"])
@@ -536,6 +601,13 @@ class C16(Prop):
                  ("o", "o.o"), ("", ".o"), (".c", ".o"), (".o", ".o"), ("/a", "a.o"), ("/", ".o"), ("c16/data/rel", "c16/data/rel.o"),
                  ("/c16/data/", "c16/data/.o"), ("..c", "..o"), ("x.cc", "x.cc.o"), ("/c16/data/" + "n" * 200, "c16/data/" + "n" * 200 + ".o")]
         mk("file-names", ["set i1 i2 i3 i4 i5"] + ["son %s %d %s" % (hx(n), i % 2, hx(p)) for i, (n, p) in enumerate(names)])
+        deep = "c16/data/" + "/".join(["d" * 60] * 3)
+        longs = []
+        for total in (200, 245, 246, 247, 249, 250, 251, 252, 254, 255, 256, 257, 300):
+            stem = "n" * (total - len(deep) - 1 - 2)
+            longs.append(("/" + deep + "/" + stem, deep + "/" + stem + ".o"))
+        mk("long-paths", ["set i1 i2 i3 i4 i5", "mkd " + deep.encode().hex()] +
+           ["son %s %d %s" % (hx(n), i % 2, hx(p_)) for i, (n, p_) in enumerate(longs)])
         many = [("i", k) if k % 3 else ("s", [0x61 + k]) for k in range(24)]
         mk("many-variables", ["use many", "setm " + vtxt(("a", many)), "so 0", "setm " + vtxt(("a", [("i", 0)] * 24)), "ro 0",
                               "setm " + vtxt(("a", [("i", 7)] * 24)), "ro 1", "so 1", "setm " + vtxt(("a", [("i", 8)] * 24)), "cp 0", "cf 0"])
@@ -561,6 +633,23 @@ class C16(Prop):
         B.append(E.Case("b-static-chain", self.tree_case_lines(E.Rng(23), T3, "r3", ["so", "ro", "cp"]), {"origin": "boundary"}))
         T4 = {"s0": ([], [("p", "x"), ("n", "k")]), "s1": ([("n", "s0")], [("n", "x"), ("s", "k")])}
         mk("same-name-static-twin", self.prog_lines(T4) + ["useg s1", "setm a[i1,i2,i3,i4]", "so 1", "setm a[i5,i6,i7,i8]", "ro 1"])
+        # variable names against `char var[100]`: 98, 99 (fit), 100, 101 (refused) characters; very long lines
+        mk("name-buffer", ["set i1 i2 i3 i4 i5"] + sum([["wf " + (b"#/c16/obj.c\n" + b"n" * k + b" 1\nvi 7\n").hex(), "ro 0"]
+                                                   for k in (98, 99, 100, 101, 250)], []) +
+           ["wf " + (b"#/c16/obj.c\nvi \"" + b"x" * 70000 + b"\"\nva ({" + b"1," * 9000 + b"})\nvb 5\n").hex(), "ro 0",
+            "wf " + (b"vi 1\n" + b"#" * 5000 + b"\nva 2").hex(), "ro 1", "wf " + (b"vi 1\nva 2\n\n").hex(), "ro 0",
+            "wf " + (b"\nvi 1\n").hex(), "ro 0", "wf " + (b"vi\n").hex(), "ro 0", "wf " + (b" 5\nvi 3\n").hex(), "ro 0",
+            "wf " + b'va "abc\nvb 1\n'.hex(), "ro 1", "wf " + b"va (x\nvb 1\n".hex(), "ro 0", "wf " + b"va (/1,2\n".hex(), "ro 1",
+            "wf " + b"vb -\n".hex(), "ro 0"])
+        # class instances at depth, on both sides of the limit, inside every other container kind
+        mk("classes-at-depth", ["rt " + vtxt(self.nest(d, "c")) for d in (1, 2, 24, 25, 26)] +
+           ["rt " + vtxt(("a", [self.nest(24, "cm")])), "rt " + vtxt(("m", [(self.nest(23, "c"), self.nest(24, "c"))])),
+            "rt c(c(c(),c(i1)),c(s22,c(m{c(i1):c(i2)})))", "rt c()", "rt a[c(),c(i0),c(o)]",
+            "rv " + b"(/(/(/1,/),/),(/".hex(), "rv " + b"({(/1,2,/),(/3,})".hex(), "rv " + b"(/1,2,})".hex(),
+            "rv " + b"({(/1,2,}),})".hex(), "rv " + (b"(/" + b"1," * 70000 + b"/)").hex()[:0] + b"(/1,/)x".hex()])
+        mk("noclear-many", ["use many", "setm " + vtxt(("a", [("i", k % 3) for k in range(24)])), "so 0",
+                            "setm " + vtxt(("a", [("i", 50 + k) for k in range(24)])), "ro 1",
+                            "setm " + vtxt(("a", [("i", 80 + k) for k in range(24)])), "ro 0"])
         mk("crash-points", ["set i1 s61 a[i1,i2] i7 m{i1:i2}", "so 0", "set i2 s62 a[i3] i8 m{}", "cp 0", "cf 0",
                             "ro 0"])
         mk("crash-points-nofile", ["set i1 s61 a[i1,i2] i7 m{i1:i2}", "cp 1", "cf 1"])
@@ -592,11 +681,11 @@ class C16(Prop):
 
     def gen_case(self, rng, cid, tier):
         kind = rng.weighted([("rt", 8), ("malformed", 8), ("trunc-all", 1), ("object", 3), ("crash", 1), ("renamed", 2),
-                             ("many", 1), ("names", 1), ("tree", 6)])
+                             ("many", 1), ("names", 1), ("tree", 5)])
         lines = ["rm"]
         if kind == "tree":
             progs, top = self.gen_progs(rng, allow_dups=rng.chance(1, 8))
-            steps = rng.choice([["so", "ro"], ["so", "ro", "so", "ro"], ["so", "ro", "cp"], ["so", "cp"]])
+            steps = rng.weighted([(("so", "ro"), 5), (("so", "ro", "so", "ro"), 3), (("so", "ro", "cp"), 1), (("so", "cp"), 1)])
             return E.Case(cid, self.tree_case_lines(rng, progs, top, steps), {"origin": "generated", "kind": kind})
         if kind == "renamed":
             return E.Case(cid, self.renamed_case(rng, 24 if rng.chance(1, 3) else 7), {"origin": "generated", "kind": kind})
@@ -684,6 +773,34 @@ class C16(Prop):
         h = {"roundtrips": 0, "restores_of_text": 0, "restore_errors": 0, "restore_values": 0, "save_objects": 0,
              "restore_objects": 0, "restore_object_errors": 0, "crash_points": 0, "injected_failures": 0,
              "sanitizer": 0}
+        errs, kinds, tops, marks = {}, {}, {}, {"class_values_saved": 0, "nesting_25_or_more": 0, "noclear_restores": 0,
+                                             "static_inherits": 0, "trees_dumped": 0, "strings_with_cr": 0, "nonfinite_floats": 0}
+        for c in cases:
+            k = c.meta.get("kind") or c.meta.get("origin") or "?"
+            kinds[k] = kinds.get(k, 0) + 1
+            for l in c.lines:
+                if l.startswith(("rt ", "set ", "setm ")):
+                    marks["class_values_saved"] += l.count("c(")
+                    marks["nesting_25_or_more"] += 1 if ("[" * 25 in l.replace("a[", "[").replace("m{", "[").replace("c(", "[").replace("i", "")
+                                                       or l.count("[") + l.count("{") + l.count("(") >= 25) else 0
+                    marks["strings_with_cr"] += 1 if re.search(r"s(?:[0-9a-f]{2})*?0d", l) else 0
+                    marks["nonfinite_floats"] += len(re.findall(r"f[7f]ff[0-9a-f]{13}", l))
+                elif l.startswith(("ro 1", "rox 1")):
+                    marks["noclear_restores"] += 1
+                elif l.startswith("prog "):
+                    marks["static_inherits"] += l.count(" i:s:")
+            for l in impl.get(c.id, []):
+                if l.startswith("err "):
+                    m = re.sub(r"while restoring \S+", "while restoring <var>", l[4:]).strip()
+                    errs[m] = errs.get(m, 0) + 1
+                elif l.startswith("rest "):
+                    tops[l[5:6]] = tops.get(l[5:6], 0) + 1
+                elif l.startswith("tree "):
+                    marks["trees_dumped"] += 1
+        h["error_kinds"] = errs
+        h["case_kinds"] = kinds
+        h["restored_top_level_types"] = tops
+        h.update(marks)
         for c in cases:
             for l in c.lines:
                 if l.startswith("rt"):
